@@ -321,6 +321,32 @@ func okReturns(fn *ssa.Function) []Sink {
 	return out
 }
 
+// altsUnder: the values v may take under the SCCP result s — a phi is expanded along its
+// executable incoming edges only (nested phis flattened).
+func altsUnder(s *SCCP, v ssa.Value) []ssa.Value {
+	seen := map[ssa.Value]bool{}
+	var out []ssa.Value
+	var walk func(x ssa.Value)
+	walk = func(x ssa.Value) {
+		if seen[x] {
+			return
+		}
+		seen[x] = true
+		ph, ok := x.(*ssa.Phi)
+		if !ok {
+			out = append(out, x)
+			return
+		}
+		for i, e := range ph.Edges {
+			if s.EdgeExec(ph.Block().Preds[i], ph.Block()) {
+				walk(e)
+			}
+		}
+	}
+	walk(v)
+	return out
+}
+
 // errReturns are the returns whose error result (last result) is not the nil constant.
 func errReturns(fn *ssa.Function) []Sink {
 	var out []Sink
